@@ -28,6 +28,7 @@ var ctxTouchers = map[string]string{
 	"(*serverConn).finishRequest":               "callers: called on the handlerDone receipt only",
 	"(*serverConn).dropResponse":                "guard: returns at once when handlerRunning",
 	"(*serverConn).closeBodyStream":             "bodyStream: looks only when Stream.bodyStream is set, which finishRequest alone does",
+	"(*serverConn).detachTimedOut":              "report: runs on a stream just taken off handlerDone, handlerRunning cleared in the statement before; it asks fasthttp whether the handler left a goroutine on the context and, if so, gives the stream a fresh one",
 	"(*serverConn).dropReported":                "after-stop: takes streams out of handlerDone (their handlers have returned) and is called only where handlerStop has been found closed (the loop is gone)",
 }
 
@@ -174,6 +175,34 @@ func init() {
 				r.undecided("finishRequest call sites", "?", "no call of (*serverConn).finishRequest resolves")
 			}
 
+			// detachTimedOut: every call directly follows `strm.handlerRunning = false` in an arm that received the stream from handlerDone,
+			// and is there in every such arm: a context a timed-out handler still uses must not reach finishRequest, dropResponse or the pool
+			nArms, nDetach := 0, 0
+			for _, fnm := range []string{"(*serverConn).handleStreams"} {
+				fd := p.decl(fnm)
+				if fd == nil {
+					continue
+				}
+				ast.Inspect(fd.Body, func(n ast.Node) bool {
+					cc, ok := n.(*ast.CommClause)
+					if !ok || cc.Comm == nil || squash(p.text(cc.Comm)) != "strm:=<-sc.handlerDone" {
+						return true
+					}
+					nArms++
+					t := stmtTexts(p, cc.Body)
+					for i, x := range t {
+						if x == "sc.detachTimedOut(strm)" && i > 0 && t[i-1] == "strm.handlerRunning=false" && i == 1 {
+							nDetach++
+						}
+					}
+					return true
+				})
+			}
+			r.check(nArms >= 2 && nDetach == nArms, "every report taken off handlerDone has a timed-out context detached first", "serverConn.go", "case strm := <-sc.handlerDone: strm.handlerRunning = false; sc.detachTimedOut(strm); ...", fmt.Sprintf("%d of the %d places where the stream loop takes a handler's report detach a timed-out handler's context before using the stream: fasthttp.TimeoutHandler returns while its goroutine still works on the RequestCtx, and the loop then reads, closes and pools a context that goroutine is writing to", nDetach, nArms))
+			for _, cs := range p.callsTo("(*serverConn).detachTimedOut") {
+				fn := p.closureLabel(cs.Fn)
+				r.check(strings.HasPrefix(fn, "(*serverConn).handleStreams"), "detachTimedOut called from "+fn, p.ipos(cs.Instr.(ssa.Instruction)), "only where the stream loop takes a report", fn+" calls detachTimedOut, which replaces Stream.ctx, away from the places where a handler's report is taken")
+			}
 			// dropReported: every call sits in a select arm that received from handlerStop
 			for _, cs := range p.callsTo("(*serverConn).dropReported") {
 				fn := p.closureLabel(cs.Fn)
